@@ -1594,8 +1594,12 @@ func (c *ChannelArbitrator) resolveContracts(resolvers []ContractResolver) {
 
 // launchResolvers launches all the active resolvers concurrently.
 func (c *ChannelArbitrator) launchResolvers() {
+	// Take a copy of the active resolvers: replaceResolver swaps elements
+	// of the slice in place, so iterating over the shared backing array
+	// outside of the lock would race with it.
 	c.activeResolversLock.Lock()
-	resolvers := c.activeResolvers
+	resolvers := make([]ContractResolver, len(c.activeResolvers))
+	copy(resolvers, c.activeResolvers)
 	c.activeResolversLock.Unlock()
 
 	// errChans is a map of channels that will be used to receive errors
